@@ -383,6 +383,42 @@ def trio_runner(chk):
         chk.ok(rule, cls.qual, "scope cancelled after the receive loop; channel closed inside the trio run; the whole trio.run is awaited on the default executor; cancellation closes and re-raises", node=cls.node)
 
 
+def aclose_wakes_manage(chk, rule):
+    """closing a future-based runner completes its failure future, so that manage_payloads (and run) return"""
+    prog = chk.program
+    for cls in util.concrete_runners(prog):
+        facts = common.runner_facts(prog, cls)
+        ff = facts.get("failure_future")
+        if not ff:
+            continue
+        F = ("attr", SELF, ff)
+        ac = prog.lookup_method(cls, "aclose")
+        STOPPED = ("attr", ("attr", SELF, "_stopped"), "is_set")
+        ok = True
+        for done in (False, True):
+
+            def decide(it, path, term, done=done):
+                if term[0] == "call" and term[1] == STOPPED:
+                    return False
+                if term[0] == "call" and term[1] == ("attr", F, "done"):
+                    return done
+                return None
+
+            for o in Interp(prog, ac, decide=decide, unroll=1).run():
+                chk.count()
+                if o.kind not in ("normal", "return", "cut"):
+                    continue
+                res = [e for e in o.path.events if e[0] == "call" and e[1][1] in (("attr", F, "set_result"), ("attr", F, "cancel"), ("attr", F, "set_exception"))]
+                if not done and not res:
+                    chk.bad(rule, ac.qual, "closing a running %s does not complete its failure future: manage_payloads never returns, so stop() / shutdown() never make run() end" % cls.name, node=ac.node, stmt="aclose-no-wake")
+                    ok = False
+                if done and res:
+                    chk.bad(rule, ac.qual, "aclose completes a future that is already done (InvalidStateError)", node=ac.node, stmt="aclose-double-complete")
+                    ok = False
+        if ok:
+            chk.ok(rule, ac.qual, "aclose completes the failure future (unless already done), which ends manage_payloads", node=ac.node)
+
+
 def thread_runner(chk):
     prog = chk.program
     cls = [c for c in util.concrete_runners(prog) if prog.resolve(c.module, c.class_attrs.get("flavour")) == "ext:threading"]
@@ -457,7 +493,7 @@ def stop_chain(chk):
                 chk.bad(rule, bstop.qual, "stop does not submit aclose() thread-safely to the loop and block on its result", node=bstop.node, stmt="stop-shape")
                 ok = False
                 continue
-            args = list(sub[0][2])
+            args = list(sub[0][2]) + [v for k_, v in sub[0][3] if k_ == "loop"]
             if not (args and args[0][0] == "call" and args[0][1] == ("attr", SELF, "aclose")) or args[1:] != [("attr", SELF, "asyncio_loop")]:
                 chk.bad(rule, bstop.qual, "stop submits %s" % [show(a) for a in args], node=bstop.node, stmt="stop-args")
                 ok = False
@@ -474,3 +510,4 @@ def run(chk):
     chk.guard("O2.4", "<trio runner>", trio_runner, chk)
     chk.guard("O2.5", "<thread runner>", thread_runner, chk)
     chk.guard("O2.6", META + ".stop", stop_chain, chk)
+    chk.guard("O2.7", "<runners>", aclose_wakes_manage, chk, "O2.7")
